@@ -149,7 +149,13 @@ fn file_formatter(enc: &'static encoding_rs::Encoding) -> &'static FileFormatter
 /// U2: the real `decode_file` on `bom ++ payload`: the BOM selects the encoding (overriding the
 /// configured one), is stripped and remembered, and the decoded text is exactly the payload --
 /// nothing more is stripped (payload = optional second U+FEFF + symbolic ASCII bytes, UTF-8).
-fn u2_body(with_bom: bool, second_feff: bool, n: usize) {
+fn u2_body(with_bom: bool, second_feff: bool, n: usize) { u2_body_s(with_bom, second_feff, n, false) }
+
+/// `scalar3`: the payload additionally ends with one arbitrary 3-byte scalar out of
+/// U+1000..U+CFFF and U+E000..U+FFFF (lead byte E1..EC or EE..EF: every continuation pair is
+/// valid) -- this includes U+FFFD, which is ordinary text, and U+FEFF (only after a real BOM: at the
+/// very start it would *be* the BOM).
+fn u2_body_s(with_bom: bool, second_feff: bool, n: usize, scalar3: bool) {
     let mut arr = [0u8; 16];
     let mut len = 0;
     if with_bom {
@@ -169,6 +175,16 @@ fn u2_body(with_bom: bool, second_feff: bool, n: usize) {
         len += 1;
         k += 1;
     }
+    if scalar3 {
+        let b0: u8 = kani::any();
+        let b1: u8 = kani::any();
+        let b2: u8 = kani::any();
+        kani::assume((b0 >= 0xE1 && b0 <= 0xEC) || b0 == 0xEE || b0 == 0xEF);
+        kani::assume(b1 >= 0x80 && b1 <= 0xBF && b2 >= 0x80 && b2 <= 0xBF);
+        kani::assume(with_bom || len > 0 || !(b0 == 0xEF && b1 == 0xBB && b2 == 0xBF));
+        arr[len] = b0; arr[len + 1] = b1; arr[len + 2] = b2;
+        len += 3;
+    }
     // configured encoding differs from what the BOM says: the BOM must win
     let configured = if with_bom { encoding_rs::WINDOWS_1252 } else { encoding_rs::UTF_8 };
     let ff = file_formatter(configured);
@@ -185,12 +201,14 @@ fn u2_body(with_bom: bool, second_feff: bool, n: usize) {
     let i: usize = kani::any();
     kani::assume(i < c.len());
     assert!(c[i] == arr[payload_start + i], "decoded text differs from the payload");
-    cover!(c.len() > 3, "has_payload");
+    cover!(c.len() >= 1, "has_payload");
     std::mem::forget(contents);
 }
 harness! { fn c17_u2_decode_bom_then_feff_n1() unwind(12) stubs(std::fmt::format => crate::common::stub_fmt_format, encoding_rs::Encoding::decode_without_bom_handling => crate::c17::stub_decode_without_bom_handling, encoding_rs::Encoding::decode_with_bom_removal => crate::c17::stub_decode_with_bom_removal, encoding_rs::Encoding::decode => crate::c17::stub_decode) { u2_body(true, true, 1) } }
 harness! { fn c17_u2_decode_bom_n2() unwind(12) stubs(std::fmt::format => crate::common::stub_fmt_format, encoding_rs::Encoding::decode_without_bom_handling => crate::c17::stub_decode_without_bom_handling, encoding_rs::Encoding::decode_with_bom_removal => crate::c17::stub_decode_with_bom_removal, encoding_rs::Encoding::decode => crate::c17::stub_decode) { u2_body(true, false, 2) } }
-harness! { fn c17_u2_decode_nobom_feff_n1() unwind(12) stubs(std::fmt::format => crate::common::stub_fmt_format, encoding_rs::Encoding::decode_without_bom_handling => crate::c17::stub_decode_without_bom_handling, encoding_rs::Encoding::decode_with_bom_removal => crate::c17::stub_decode_with_bom_removal, encoding_rs::Encoding::decode => crate::c17::stub_decode) { u2_body(false, true, 1) } }
+harness! { fn c17_u2_decode_nobom_n2() unwind(12) stubs(std::fmt::format => crate::common::stub_fmt_format, encoding_rs::Encoding::decode_without_bom_handling => crate::c17::stub_decode_without_bom_handling, encoding_rs::Encoding::decode_with_bom_removal => crate::c17::stub_decode_with_bom_removal, encoding_rs::Encoding::decode => crate::c17::stub_decode) { u2_body(false, false, 2) } }
+harness! { fn c17_u2_decode_nobom_scalar3() unwind(12) stubs(std::fmt::format => crate::common::stub_fmt_format, encoding_rs::Encoding::decode_without_bom_handling => crate::c17::stub_decode_without_bom_handling, encoding_rs::Encoding::decode_with_bom_removal => crate::c17::stub_decode_with_bom_removal, encoding_rs::Encoding::decode => crate::c17::stub_decode) { u2_body_s(false, false, 0, true) } }
+harness! { fn c17_u2_decode_bom_scalar3() unwind(12) stubs(std::fmt::format => crate::common::stub_fmt_format, encoding_rs::Encoding::decode_without_bom_handling => crate::c17::stub_decode_without_bom_handling, encoding_rs::Encoding::decode_with_bom_removal => crate::c17::stub_decode_with_bom_removal, encoding_rs::Encoding::decode => crate::c17::stub_decode) { u2_body_s(true, false, 1, true) } }
 
 // Contract models of encoding_rs's decode entry points for UTF-8 input that the harness knows to
 // be valid (the library's validation loops are too expensive to encode, measured: no verdict in
